@@ -44,20 +44,17 @@ def phase_writers(chk, prog):
 
 
 def collection_call_sites(chk, prog):
-    """Each Arena collection method passes constants (run_until, stop) to do_collection."""
-    n = 0
+    """Informational only: the (run_until, stop) constants each caller passes to do_collection. The verdict on the
+    per-method protocol comes from interpreting the Arena methods end to end (helpers that forward the two
+    arguments are followed), so a non-constant argument at an intermediate call site is not an alarm."""
+    sites = []
     for e in prog.callers_of("context::Context::do_collection"):
         t = e.term
-        consts = []
         body = prog.body_of(e.caller_raw)
-        for a in t["args"][2:4]:
-            consts.append(_const_variant(prog, body, a))
-        ok = all(c is not None for c in consts)
-        n += 1
-        chk.inst("do_collection-call-site-constants", e.caller, ok,
-                 detail="run_until/stop are not compile-time constants at %s:%s" % (e.file, e.line),
-                 sample={"caller": e.caller, "run_until": consts[0], "stop": consts[1]})
-    chk.floor("do_collection-call-sites", n, 3)
+        consts = [_const_variant(prog, body, a) for a in t["args"][2:4]]
+        sites.append({"caller": e.caller, "run_until": consts[0], "stop": consts[1]})
+    chk.extra["do_collection_call_sites"] = sites
+    chk.anchor("context::Context::do_collection callers", bool(sites))
 
 
 def _const_variant(prog, body, op):
